@@ -1201,8 +1201,22 @@ func runCSM(prop string, r *common.Rand, tier string, o *common.Out, replay stri
 		c06xRun(o, "replay", client.FailMode(m), p[2])
 		return
 	}
+	if strings.HasPrefix(replay, "codeciso|") {
+		p := strings.Split(replay, "|")
+		sr, _ := strconv.Atoi(p[1])
+		nf, _ := strconv.Atoi(p[2])
+		c06Codec(o, "replay", protocol.SerializeType(sr), nf)
+		return
+	}
 	if replay == "" && prop == "C06" {
 		c06xAll(o, prop)
+		k := 0
+		for _, ser := range []protocol.SerializeType{protocol.JSON, protocol.MsgPack} {
+			for _, nf := range []int{0, 1, 2} {
+				k++
+				c06Codec(o, fmt.Sprintf("%s-codec%d", prop, k), ser, nf)
+			}
+		}
 	}
 	if strings.HasPrefix(replay, "late|") {
 		p := strings.Split(replay, "|")
